@@ -488,6 +488,20 @@ impl Check for C19 {
                 c.simcfg.io_fault_rate = *r.pick(&[0.05, 0.2, 0.5]);
             }
             "hard-faults" => {
+                // histories matter here (a failed write in one run, more runs on the same file afterwards):
+                // split single-run cases into two or three runs half of the time
+                if c.batches.len() == 1 && c.batches[0].len() >= 2 && r.chance(0.5) {
+                    let all = c.batches.remove(0);
+                    let k = r.range(2, 3.min(all.len() as u64)) as usize;
+                    let mut parts: Vec<Vec<Value>> = vec![vec![]; k];
+                    for (i, q) in all.into_iter().enumerate() {
+                        parts[i % k].push(q);
+                    }
+                    c.batches = parts.into_iter().filter(|b| !b.is_empty()).collect();
+                    if let Some(m) = &mut c.world.per_run_sinks {
+                        m.resize(c.batches.len(), 3);
+                    }
+                }
                 c.simcfg.faults = sim::F_SHORT_WRITE | sim::F_EINTR_WRITE | *r.pick(&[sim::F_EIO_WRITE, sim::F_ENOSPC_WRITE, sim::F_EIO_WRITE, sim::F_ENOSPC_WRITE, sim::F_EOPEN, sim::F_ZERO_WRITE]);
                 c.simcfg.io_fault_rate = *r.pick(&[0.05, 0.2]);
                 c.simcfg.max_hard_faults = 1;
